@@ -269,12 +269,12 @@ func runC16(c *Ctx) {
 		// markDone only under the cancel option, run otherwise
 		tE, fE := f.CondEdges(func(e ast.Expr) bool { return fieldSel(info, e, "optCancelPendingTasksOnShutdown") })
 		ok := len(tE) > 0
-		for _, pt := range f.Find(callNamed("markDone")) {
+		for _, pt := range f.FindOwn(callNamed("markDone")) {
 			if _, only := f.OnlyThroughEdges(pt, tE); !only {
 				ok = false
 			}
 		}
-		for _, pt := range f.Find(callNamed("run")) {
+		for _, pt := range f.FindOwn(callNamed("run")) {
 			if _, only := f.OnlyThroughEdges(pt, fE); !only {
 				ok = false
 			}
